@@ -153,8 +153,13 @@ mod harness {
     use proc_macro2::Span;
     use syn::Visibility;
 
-    /// `abort!` of proc_macro_error: the configuration is rejected — the path ends here
+    static mut REQ_ILLEGAL: bool = false;
+
+    /// `abort!` of proc_macro_error: the configuration is rejected — the path ends here.  Completeness:
+    /// only the three documented-illegal requests may be rejected (C10: every documented combination
+    /// can be derived)
     fn abort_stub(_d: proc_macro_error::Diagnostic) -> ! {
+        assert!(unsafe { REQ_ILLEGAL }, "R:complete:legal-configuration-is-not-rejected");
         kani::assume(false);
         loop {}
     }
@@ -221,6 +226,10 @@ mod harness {
         let req_range = f.range_fn.enabled;
         let req_iter = f.iter.enabled;
 
+        unsafe {
+            REQ_ILLEGAL = (req_range && !req_iter) || (req_range && req_iter_mode == IterMode::TableInline)
+                || (req_iter && req_iter_mode == IterMode::Range && !gapless);
+        }
         f.resolve(&derive);
 
         // ---- returns normally => none of the three illegal configurations (C13 clauses in resolve)
@@ -329,6 +338,7 @@ def run_layer_r(scratch, target=None):
     if os.path.exists(lock):
         shutil.copy(lock, os.path.join(d, "Cargo.lock"))
     src, expect = gen_harness(uses)
+    expect.append(("assert", "R:complete:legal-configuration-is-not-rejected"))
     with open(os.path.join(d, "src", "main.rs"), "w") as f:
         f.write(src)
     rc, out, err, dt = run(["cargo", "kani", "-Z", "stubbing", "--harness", "resolve_contract"], cwd=d,
